@@ -283,11 +283,13 @@ theorem readHeader_of_holds {F : Bytes} (h : Holds F 0 header) : readHeader F = 
 /-- every frame takes at least a directory: the file is longer than the number of frames -/
 theorem framesIn_length {F : Bytes} (cfg : Cfg) (fin last idx : Nat) (frames : List Frame)
     (h : FramesIn F cfg fin last idx frames) (hne : frames ≠ []) :
-    last + K.sizeofIfd * frames.length ≤ F.length := by
+    last + 336 * frames.length ≤ F.length := by
   induction frames generalizing last idx with
   | nil => exact absurd rfl hne
   | cons f rest ih =>
     have ho := layout_order last f.data.length (descOf cfg idx f).length
+    have hk : K.sizeofIfd = 336 := rfl
+    rw [hk] at ho
     simp only [FramesIn] at h
     obtain ⟨_, _, _, hstr, hrest⟩ := h
     cases rest with
@@ -297,8 +299,10 @@ theorem framesIn_length {F : Bytes} (cfg : Cfg) (fin last idx : Nat) (frames : L
       omega
     | cons g r =>
       have := ih (frameLayout cfg last idx f).next (idx + 1) hrest (by simp)
-      have hk : K.sizeofIfd = 336 := rfl
-      simp only [List.length_cons, frameLayout, hk] at *
+      have e1 : (f :: g :: r).length = (g :: r).length + 1 := rfl
+      rw [e1]
+      generalize (g :: r).length = n at this ⊢
+      unfold frameLayout at this
       omega
 
 /-- **round trip**: the reader applied to the file of an acquisition returns the expected pages -/
@@ -309,8 +313,6 @@ theorem readTiff_tiffFile (old : Bytes) (cfg : Cfg) (frames : List Frame) (hne :
   have r1 := readHeader_of_holds hh
   have r2 := readChain_of_framesIn cfg K.sizeofHeader 0 frames hf hw h64 (by decide)
   have hlen := framesIn_length cfg 0 K.sizeofHeader 0 frames hf hne
-  have hk : K.sizeofIfd = 336 := rfl
-  rw [hk] at hlen
   have hfuel : (tiffFile old cfg frames).length + 1 = (frames.length + 1) + ((tiffFile old cfg frames).length - frames.length) := by
     omega
   have hcs : chainStart K.sizeofHeader frames = K.hdrFirstIfd := by
